@@ -247,6 +247,38 @@ func GenGroups(g G, w *World, maxDepth int, exoticNames bool) []GroupSpec {
 		}
 		specs = append(specs, gs)
 	}
+	if g.Chance(1, 5, "family") && len(names) > 0 {
+		// a family of 3-5 sibling subgroups under a parent that has no rules of
+		// its own (possibly two implicit levels), each sibling matching its own
+		// subset of the references: a reference is then matched / not matched /
+		// matched by successive siblings
+		parent := g.PickStr([]string{"fam", "fam.inner", "kin"}, "famparent")
+		if !have[parent] {
+			ns := g.Int(3, 5, "nfam")
+			for i := 0; i < ns; i++ {
+				sym := fmt.Sprintf("%s.s%d", parent, i)
+				if have[sym] {
+					continue
+				}
+				have[sym] = true
+				var pat string
+				switch g.Pick(3, "fampat") {
+				case 0:
+					pat = names[g.Pick(len(names), "famname")]
+				case 1:
+					nm := names[g.Pick(len(names), "famname2")]
+					if k := strings.LastIndexByte(nm, '/'); k > 0 {
+						pat = nm[:k]
+					} else {
+						pat = nm
+					}
+				default:
+					pat = g.PickStr([]string{"refs/heads", "refs/tags", "refs/remotes", "refs/"}, "famfixed")
+				}
+				specs = append(specs, GroupSpec{Symbol: sym, Rules: []GroupRule{{Include: true, Pattern: pat}}})
+			}
+		}
+	}
 	return specs
 }
 
